@@ -214,6 +214,156 @@ def check_C14(tier, seed):
     return rep.finish()
 
 
+# =============================================================================================== parser runs (L2a)
+def parser_runs(rep, mode, seed, prefix, shards, per_shard, release=False, parsers=None, extra=None):
+    """Drive the real parsers (vh parsers --mode ...) and validate every run against ParserContract."""
+    _clean_traces(prefix)
+    paths, procs = [], []
+    exe = vlib.build_harness(release)
+    for s in range(shards):
+        p = os.path.join(TRACES, "%s%d.ndjson" % (prefix, s))
+        paths.append(p)
+        cmd = [exe, "parsers", "--mode", mode, "--out", p, "--seed", str(seed), "--first", str(s * per_shard),
+               "--count", str(per_shard)] + (["--parsers", parsers] if parsers else []) + (extra or [])
+        procs.append(subprocess.Popen(cmd, cwd=vlib.ROOT, stdout=subprocess.PIPE, stderr=subprocess.PIPE, text=True))
+    nruns = ninputs = 0
+    for pr in procs:
+        out, err = pr.communicate(timeout=3000)
+        if pr.returncode != 0:
+            raise ToolError("vh parsers --mode %s failed (exit %d): %s" % (mode, pr.returncode, err[-1500:]))
+        o = json.loads(out.strip().splitlines()[-1])
+        nruns += o["runs"]
+        ninputs += o["inputs"]
+    res = validate_traces(prefix, "Trace_Contract", "Trace_Contract.cfg", paths, timeout=2400)
+    _report_rejects(rep, "Trace_Contract", res["rejected"],
+                    "vh parsers --mode %s --seed %d (run id in reset record); ./check %s --replay <this file>" % (mode, seed, rep.prop))
+    # distinct non-trivial runs: at least one refill and at least one item or error
+    seen = set()
+    nt = 0
+    sample = None
+    for p in paths:
+        cur = None
+        refill = event = False
+        with open(p) as fh:
+            for line in fh:
+                if line.startswith('{"ev":"reset"') or '"ev":"reset"' in line[:400]:
+                    r = json.loads(line)
+                    if r.get("ev") == "reset":
+                        cur = (r["parser"], r["lit"], r["flag"], bytes(r["input"]), r["policy"], r["chunk"], r["limit"], r["faulty"])
+                        refill = event = False
+                        if sample is None and 10 < len(r["input"]) < 60 and not r["ref"]:
+                            sample = {"parser": r["parser"], "lit": r["lit"], "input": bytes(r["input"]).decode("latin1"),
+                                      "policy": r["policy"], "chunk": r["chunk"], "fault_at": r["limit"] if r["faulty"] else None}
+                        continue
+                if not refill and '"ev":"src"' in line and '"kind":"n"' in line:
+                    refill = True
+                if not event and '"ev":"pret"' in line and ('"res":"some"' in line or '"res":"err"' in line or '"res":"ok"' in line):
+                    event = True
+                if '"ev":"pend"' in line and cur is not None:
+                    if refill and event and cur not in seen:
+                        seen.add(cur)
+                        nt += 1
+                    cur = None
+    rep.cov["traces_validated_against_impl"] = rep.cov.get("traces_validated_against_impl", 0) + nruns - len(res["rejected"])
+    rep.cov["trace_records_validated"] = rep.cov.get("trace_records_validated", 0) + res["states"]
+    rep.cov["evaluations"] = rep.cov.get("evaluations", 0) + nruns
+    rep.cov["inputs"] = rep.cov.get("inputs", 0) + ninputs
+    rep.cov["distinct_nontrivial"] = rep.cov.get("distinct_nontrivial", 0) + nt
+    if sample:
+        rep.cov["samples"].append({"parser_run(%s)" % mode: sample})
+    _clean_traces(prefix)
+    return nruns
+
+
+CONTRACT_RULE = ("every run (seven parsers, all literal types, generated / seed / mutated inputs) is recorded call by call "
+                 "with the reader's internal events and validated record by record against ParserContract, relative to the "
+                 "reference run (whole input in one read) of the same input; a run is non-trivial iff it contains a refill "
+                 "and returns an item or an error, distinct by (parser, literal type, config, input, schedule, chunk, fault)")
+
+
+def check_C01(tier, seed):
+    rep = Report("C01", tier, seed, "model_checking")
+    mc_reader(rep, tier)
+    if tier == QUICK:
+        parser_runs(rep, "sched", seed, "c01_", 12, 140)
+    else:
+        parser_runs(rep, "sched", seed, "c01_", 14, 2500)
+        parser_runs(rep, "sched", seed + 7, "c01r_", 14, 800, release=True)
+    rep.cov["rule"] = ("model: DeferredReader design model (window content independent of the read schedule); traces: each "
+                       "input under 6 schedules (1/2/3-byte and random reads, chunk sizes 1..64, Interrupted answers, "
+                       "from_buf_reader with a prefilled BufReader): items and outcome (error line/column included) must "
+                       "equal the reference run's. " + CONTRACT_RULE)
+    rep.assumptions += ["the parse function is uninterpreted at this level (made concrete by the reference run); the format "
+                        "grammars (C06/C07) say what the items must be"]
+    return rep.finish()
+
+
+def check_C04(tier, seed):
+    rep = Report("C04", tier, seed, "model_checking")
+    mc_reader(rep, tier)
+    if tier == QUICK:
+        parser_runs(rep, "fault", seed, "c04_", 12, 40)
+    else:
+        parser_runs(rep, "fault", seed, "c04_", 14, 600, extra=["--maxfaults", "96"])
+    rep.cov["rule"] = ("model: DeferredReader with every fault offset (error parked, complete, reported once); traces: each "
+                       "input with the source failing after k bytes for every k in 0..=len (sampled above 48/96 offsets), "
+                       "one-shot and random chunking: the final result must be the IO error, or the reference run's syntax "
+                       "error if reached before the failing read; never a clean end; items a prefix of the reference's. "
+                       + CONTRACT_RULE)
+    return rep.finish()
+
+
+def check_C05(tier, seed):
+    rep = Report("C05", tier, seed, "exploration")
+    if tier == QUICK:
+        parser_runs(rep, "robust", seed, "c05d_", 12, 500)
+        parser_runs(rep, "robust", seed + 1, "c05r_", 12, 500, release=True)
+    else:
+        parser_runs(rep, "robust", seed, "c05d_", 14, 12000)
+        parser_runs(rep, "robust", seed + 1, "c05r_", 14, 12000, release=True)
+    rep.cov["rule"] = ("grammar-generated, seed, mutated (byte flips, truncation, huge numerals, invalid UTF-8, over-long "
+                       "varints, duplicated/deleted lines) and arbitrary inputs through all parsers and literal types incl. "
+                       "the whole-file AIGER API, dev build (overflow + debug assertions) and release build; a panic is a "
+                       "record ParserContract has no action for; measured peak heap of an untraced re-run must satisfy "
+                       "peak <= 64*consumed + 8*chunk + 1 MiB. " + CONTRACT_RULE)
+    rep.assumptions += ["stack overflow / abort / non-termination would surface as a dead or timed-out driver (tool error), "
+                        "not as a modelled event"]
+    return rep.finish()
+
+
+def check_C08(tier, seed):
+    rep = Report("C08", tier, seed, "exploration")
+    if tier == QUICK:
+        parser_runs(rep, "robust", seed + 50, "c08a_", 12, 400)
+        parser_runs(rep, "sched", seed + 51, "c08b_", 6, 100)
+    else:
+        parser_runs(rep, "robust", seed + 50, "c08a_", 14, 8000)
+        parser_runs(rep, "sched", seed + 51, "c08b_", 14, 1500)
+    rep.cov["rule"] = ("sentence 1: at every give_up event of every run the line must be the number of LFs before the line "
+                       "start plus one, position >= line start, column = position - line start + 1 <= line length + 1, and "
+                       "every line_at_offset event must announce exactly the next line start of the input (text formats); "
+                       "the location returned to the caller must be the one computed there, under all chunkings. "
+                       + CONTRACT_RULE)
+    return rep.finish()
+
+
+def check_C09(tier, seed):
+    rep = Report("C09", tier, seed, "model_checking")
+    mc_reader(rep, tier)
+    if tier == QUICK:
+        reader_histories(rep, tier, seed + 9, "c09r_", False, 6, 400)
+        parser_runs(rep, "lines", seed, "c09_", 12, 300)
+    else:
+        reader_histories(rep, tier, seed + 9, "c09r_", False, 14, 4000, ops=60, maxlen=96)
+        parser_runs(rep, "lines", seed, "c09_", 14, 6000)
+    rep.cov["rule"] = ("reader clause: ReaderAbs enables a source read only while the pending request is unsatisfied and the "
+                       "source has not ended (model-checked refinement; every src record of every trace); item clause: "
+                       "well-formed documents of every streaming parser through a source that returns at most one line per "
+                       "read (chunk 16384, 8, 1): when an item is returned, the bytes delivered must not exceed the end of "
+                       "the line that completes it. " + CONTRACT_RULE)
+    return rep.finish()
+
+
 # =============================================================================================== C16 / C13
 def check_C16(tier, seed):
     rep = Report("C16", tier, seed, "model_checking")
